@@ -591,6 +591,15 @@ def r4_live_state(ctx) -> None:
                 names = [a.value] if isinstance(a, ast.Constant) else loop_consts.get(a.id, []) if isinstance(a, ast.Name) else []
                 for nm in names:
                     read.add((wf.cls.qual, nm))
+    # … and what the interpreted writers read (sa.tabulate: to_dict on an object with every attribute present) — this sees
+    # reads through getattr(self, name) with names from tables, generators and helpers
+    from . import c06_keys as K4
+    for cq4 in sorted(serial):
+        ci4 = prog.classes.get(cq4)
+        if ci4 is None or prog.lookup_method(cq4, "to_dict") is None:
+            continue
+        for attr4 in K4.writer_reads(ctx, cq4):
+            read.add((cq4, attr4))
     n_stores = 0
     for f in prog.functions_in("sigma.processing"):
         for n in walk_no_nested(f.node):
